@@ -8,6 +8,7 @@ import (
 	"github.com/hashicorp/hcl/v2"
 	"github.com/hashicorp/hcl/v2/hclsyntax"
 
+	"github.com/hashicorp/hcl-lang/reference"
 	"github.com/hashicorp/hcl-lang/schema"
 	"github.com/zclconf/go-cty/cty"
 
@@ -133,6 +134,21 @@ func (p c12items) RunUnit(idx int, tier string, seed int64, focus map[string]str
 					continue
 				}
 				delta := cut - first
+				// items that themselves declare something (a traversal under a
+				// Reference{Address} constraint) are not removed: a later reference may
+				// legitimately resolve to that declaration
+				declares := false
+				var flat []reference.Target
+				flattenTargets(env0.PathCtx[st.Path].ReferenceTargets, &flat)
+				for _, tg := range flat {
+					if tg.RangePtr != nil && tg.RangePtr.Filename == st.File && tg.RangePtr.Start.Byte >= first && tg.RangePtr.End.Byte <= cut {
+						declares = true
+						break
+					}
+				}
+				if declares {
+					continue
+				}
 				text1 := src[:first] + src[cut:]
 				ws1, _ := rc.Make()
 				ws1.Paths[st.Path].Files[st.File] = text1
